@@ -394,11 +394,13 @@ def _o_psbt_direct(w):
 
 
 def _o_psbt_taproot_direct(w):
+    """psbt / PsbtView taproot digest = sig_hash.taproot with the type the rules name: the explicit hash_type
+    when one is given (0 = SIGHASH_DEFAULT included), else the input's PSBT_IN_SIGHASH_TYPE, else DEFAULT."""
     t = un_tx(w["tx"])
     outs = un_outs(w["outs"])
-    i, ht = w["i"], w["ht"]
+    i, ht, sht = w["i"], w["ht"], w.get("sht")
     leaf = unhx(w["leaf"])
-    p = _psbt_taproot_objects(t, outs, i, None)
+    p = _psbt_taproot_objects(t, outs, i, sht)
     a = _call(psbt_mod.taproot_sig_hash, p, i, leaf_hash=leaf, hash_type=ht)
     v = _call(lambda: PsbtView(p.serialize()).taproot_sig_hash(i, leaf_hash=leaf, hash_type=ht))
     tx = mk_tx(t)
@@ -406,8 +408,111 @@ def _o_psbt_taproot_direct(w):
         x.script_sig = b""
         x.script_witness = Witness()
     ext = leaf + b"\x00\xff\xff\xff\xff" if leaf else b""
-    d = _call(sig_hash.taproot, tx, i, [mk_out(o) for o in outs], ht, int(bool(ext)), b"", ext)
-    return a == d == v, f"psbt={a} view={v} direct={d}"
+    eff = ht if ht is not None else (sht or 0)
+    d = _call(sig_hash.taproot, tx, i, [mk_out(o) for o in outs], eff, int(bool(ext)), b"", ext)
+    return a == d == v and a[0] == "ok", f"sht={sht} hash_type={ht}: psbt={a} view={v} direct({eff})={d}"
+
+
+def committed(kind, ht, i, what, j, n_out):
+    """Does hash type `ht` commit input `i`'s signature to field `what` of position `j`?  (the T2 table)"""
+    if kind == "taproot":
+        acp, base = ht & 0x80, ht & 3
+        if what in ("seq", "outpoint"):
+            return not acp
+        if what in ("spent_amount", "spent_spk"):
+            return j == i or not acp
+    else:
+        acp, base = ht & 0x80, ht & 0x1F
+        if kind == "legacy" and base == 3 and i >= n_out:
+            return False   # the SIGHASH_SINGLE bug: the constant commits to nothing
+        if what == "seq":
+            return not acp and base not in (2, 3)
+        if what == "outpoint":
+            return not acp
+    if what == "out":
+        return False if base == 2 else (j == i if base == 3 else True)
+    raise ValueError(what)
+
+
+def _o_commitment(w):
+    """T2 on the real code: editing one field changes the digest exactly when the hash type commits to it
+    (over-commitment is as much a failure as under-commitment)."""
+    t = un_tx(w["tx"])
+    outs = un_outs(w.get("outs", "."))
+    kind, i, ht, what, j = w["kind"], w["i"], w["ht"], w["what"], w["j"]
+
+    def digest(t, outs):
+        tx = mk_tx(t)
+        if kind == "legacy":
+            return _call(sig_hash.legacy, unhx(w["sc"]), tx, i, ht)
+        if kind == "segwit":
+            return _call(sig_hash.segwit_v0, unhx(w["sc"]), tx, i, ht, w["amount"])
+        return _call(sig_hash.taproot, tx, i, [mk_out(o) for o in outs], ht, w["ext_flag"], unhx(w["annex"]),
+                     unhx(w["ext"]))
+    a = digest(t, outs)
+    t2 = {"version": t["version"], "lock_time": t["lock_time"], "vin": list(t["vin"]), "vout": list(t["vout"])}
+    outs2 = list(outs)
+    if what == "seq":
+        x = t2["vin"][j]
+        t2["vin"][j] = (x[0], x[1], x[2], x[3] ^ 1, x[4])
+    elif what == "outpoint":
+        x = t2["vin"][j]
+        t2["vin"][j] = (x[0][:-1] + bytes([x[0][-1] ^ 1]), x[1], x[2], x[3], x[4]) if w.get("how") else \
+            (x[0], x[1] ^ 1, x[2], x[3], x[4])
+    elif what == "out":
+        x = t2["vout"][j]
+        t2["vout"][j] = (x[0] ^ 1, x[1]) if w.get("how") else (x[0], x[1] + b"\x51")
+    elif what == "spent_amount":
+        outs2[j] = (outs2[j][0] ^ 1, outs2[j][1])
+    elif what == "spent_spk":
+        outs2[j] = (outs2[j][0], outs2[j][1] + b"\x51")
+    b = digest(t2, outs2)
+    want = committed(kind, ht, i, what, j, len(t["vout"]))
+    ok = a[0] == b[0] == "ok" and (a[1] != b[1]) == want
+    return ok, (f"{kind} ht={hex(ht)} i={i}: editing {what}[{j}] "
+                f"{'changed' if a[1] != b[1] else 'did not change'} the digest, the hash type "
+                f"{'commits' if want else 'does not commit'} to it ({a[0]}/{b[0]})")
+
+
+def _o_view_history(w):
+    """A PsbtView answers from the stream, not from its history: what a caller does to `view.tx` /
+    `view.prevouts` between two questions changes no digest, and a second `view.tx` is the first."""
+    t = un_tx(w["tx"])
+    outs = un_outs(w["outs"])
+    i, ht, k = w["i"], w["ht"], w["k"]
+    leaf = unhx(w["leaf"])
+    p = _psbt_taproot_objects(t, outs, i, None)
+    raw = p.serialize()
+
+    def ask(v):
+        if w["fn"] == "taproot":
+            return v.taproot_sig_hash(i, leaf_hash=leaf, hash_type=ht)
+        return v.ecdsa_sig_hash(i, hash_type=ht)
+    want = _call(lambda: ask(PsbtView(raw)))
+    want_tx = PsbtView(raw).tx.serialize(include_witness=True, check_validity=False)
+    v = PsbtView(raw)
+    got = []
+    for step in w["steps"]:
+        if step == "ask":
+            got.append(_call(lambda: ask(v)))
+        elif step == "edit-tx":
+            x = v.tx
+            x.vin[k].sequence ^= 1
+            x.vin[k].prev_out = OutPoint(b"\x77" * 32, 7, check_validity=False)
+            x.vin[k].script_sig = b"\x51"
+            x.version ^= 1
+            x.lock_time ^= 1
+            if x.vout:
+                x.vout[0] = TxOut(x.vout[0].value ^ 1, x.vout[0].script_pub_key, check_validity=False)
+            x.vout.append(TxOut(1, b"\x51", check_validity=False))
+            x.vin.append(x.vin[0])
+        elif step == "edit-prevouts":
+            x = v.prevouts
+            x[k] = TxOut(x[k].value ^ 1, b"\x51", check_validity=False)
+            x.pop()
+    now_tx = v.tx.serialize(include_witness=True, check_validity=False)
+    ok = all(g == want for g in got) and now_tx == want_tx and want[0] == "ok"
+    return ok, f"{w['fn']} steps={w['steps']}: fresh view {want}, this view {got}, tx unchanged={now_tx == want_tx}"
 
 
 def _o_core_vector(w):
@@ -424,6 +529,8 @@ ORACLES = {
     "psbt=direct": _o_psbt_direct,
     "psbt.taproot=direct": _o_psbt_taproot_direct,
     "core.sighash.json": _o_core_vector,
+    "commitment": _o_commitment,
+    "psbtview.history": _o_view_history,
 }
 
 
@@ -757,12 +864,69 @@ def s_psbt(ctx):
                 for _ in range(n)]
         leaf = rng.choice([b"", common.rand_bytes(rng, 32)])
         ht = rng.choice(SEVEN)
-        ctx.check("psbt.taproot=direct", {"tx": tok_tx(t), "outs": tok_outs(outs), "i": i, "ht": ht, "leaf": hx(leaf)})
         sht = rng.choice([None, None, 0, 1, 2, 3, 0x81, 0x82, 0x83])
+        oht = rng.choice([None, 0, 0, ht])   # explicit SIGHASH_DEFAULT must win over the input's own type
+        eff = oht if oht is not None else (sht or 0)
+        if (eff & 3) != 3 or i < len(t["vout"]):
+            ctx.check("psbt.taproot=direct", {"tx": tok_tx(t), "outs": tok_outs(outs), "i": i, "ht": oht, "sht": sht,
+                                              "leaf": hx(leaf)})
         htl = rng.choice([None, None, ht, ht]) if rng.random() < 0.9 else rng.choice([4, 0x80])
         lines.append(f"psbt.taproot {'.' if sht is None else sht} {tok_tx(t)} {i} {tok_outs(outs)} {hx(leaf)} "
                      f"{'.' if htl is None else htl} {rng.choice(['0', '1'])}")
     ctx.stream("psbt.taproot_sig_hash", lines)
+
+
+def s_commitment(ctx):
+    rng = ctx.rng
+    for _ in range(ctx.n(700)):
+        kind = rng.choice(["legacy", "segwit", "segwit", "taproot"])
+        t = g_tx(rng, n_in=rng.randrange(2, 6), n_out=rng.randrange(1, 6))
+        n, m = len(t["vin"]), len(t["vout"])
+        i = rng.randrange(n)
+        w = {"kind": kind, "tx": tok_tx(t), "i": i, "sc": hx(g_script(rng)), "amount": g_i64(rng)}
+        if kind == "taproot":
+            ht = rng.choice(SEVEN)
+            if (ht & 3) == 3 and i >= m:
+                i = w["i"] = rng.randrange(min(n, m))
+            path, ext = g_ext(rng)[0] & 1, b""
+            if path:
+                ext = common.rand_bytes(rng, 32) + b"\x00\xff\xff\xff\xff"
+            w.update(outs=tok_outs(g_prevouts(rng, n)), ext_flag=path, ext=hx(ext),
+                     annex=hx(rng.choice([b"", b"\x50\x01"])))
+            whats = ["seq", "outpoint", "out", "spent_amount", "spent_spk"]
+        else:
+            # every value of the low five bits (the undefined ones too), with and without ANYONECANPAY / high bits
+            ht = rng.randrange(32) | rng.choice([0, 0x80]) | rng.choice([0, 0, 0x20, 0x40, 0x60]) | \
+                rng.choice([0, 0, rng.getrandbits(24) << 8])
+            whats = ["seq", "seq", "outpoint", "out"]
+        what = rng.choice(whats)
+        others = [x for x in range(n) if x != i]
+        j = rng.randrange(m) if what == "out" else (rng.randrange(n) if what.startswith("spent") else rng.choice(others))
+        if what == "out" and rng.random() < 0.4 and i < m:
+            j = i
+        w.update(ht=ht, what=what, j=j, how=rng.choice([0, 1]))
+        ctx.count("commitment", f"{kind}.{what}")
+        ctx.check("commitment", w)
+
+
+def s_view_history(ctx):
+    rng = ctx.rng
+    orders = [["ask", "edit-tx", "ask"], ["edit-tx", "ask"], ["ask", "edit-prevouts", "ask"], ["edit-prevouts", "ask"],
+              ["edit-tx", "edit-prevouts", "ask", "edit-tx", "ask"]]
+    for _ in range(ctx.n(60, 600)):
+        t = valid_tx(rng)
+        n = len(t["vin"])
+        i = rng.randrange(n)
+        fn = rng.choice(["taproot", "ecdsa"])
+        outs = [(rng.choice([546, rng.getrandbits(40)]),
+                 (b"\x51\x20" + common.rand_bytes(rng, 32)) if fn == "taproot" else (b"\x00\x14" + common.rand_bytes(rng, 20)))
+                for _ in range(n)]
+        ht = rng.choice(SEVEN if fn == "taproot" else SEVEN[1:])
+        if (ht & 3) == 3 and i >= len(t["vout"]):
+            ht = 1
+        ctx.check("psbtview.history", {"tx": tok_tx(t), "outs": tok_outs(outs), "i": i, "ht": ht, "fn": fn,
+                                       "leaf": hx(rng.choice([b"", common.rand_bytes(rng, 32)])) if fn == "taproot" else "_",
+                                       "k": rng.randrange(n), "steps": rng.choice(orders)})
 
 
 def run(ctx):
@@ -774,3 +938,5 @@ def run(ctx):
     s_taproot(ctx)
     s_from_tx(ctx)
     s_psbt(ctx)
+    s_commitment(ctx)
+    s_view_history(ctx)
